@@ -99,6 +99,11 @@ def rule_G3(ctx):
     for name in ('__eq__', '__ne__', '__hash__', '__len__', 'tobytes', '__bytes__'):
         for f in m.winner('Bits', name):
             ops.append((name, f))
+    # shifts keep their direction relative to the most significant end; bit-wise operators act on whole values
+    for name in ('__lshift__', '__rshift__', '__ilshift__', '__irshift__', '__invert__', '__and__', '__or__', '__xor__',
+                 '__iand__', '__ior__', '__ixor__'):
+        for f in m.winner('BitArray', name):
+            ops.append((name, f))
     seen_ops = set()
     for opname, f in ops:
         if f.key in seen_ops:
@@ -107,7 +112,7 @@ def rule_G3(ctx):
         if _lsb0_refusal(f):
             r.ok(f'{opname}', {'instance': f.key, 'verdict': 'refuses lsb0 mode up front'})
             continue
-        roots = [ctx.node(f, c) for c in ('Bits', 'BitStream')]
+        roots = [ctx.node(f, c) for c in ('Bits', 'BitStream') if f.cls in m.mro[c]]
 
         def edge_ok(n, c, cs):
             g = m.funcs[c[0]]
@@ -158,6 +163,10 @@ def _whole_range(ctx, g, cs, parent):
         args = list(node.args) + [k.value for k in node.keywords]
     elif isinstance(node, ast.Subscript):
         args = [node.slice]
+    else:
+        args = [a for a in cs.args if a is not None]      # del x[k] / x[k] = v / augmented forms
+    if cs.name in ('__setitem__', '__delitem__', 'getindex') and not args:
+        return False
     if not args:
         return True
     params = {a.arg: d for a, d in zip(reversed(g.node.args.args), reversed(g.node.args.defaults))}
